@@ -284,8 +284,51 @@ def factory_stage(rep):
     return n
 
 
+def wire_stage(rep):
+    """What a command object says its request is, is what goes on the wire - on BOTH transports, for every kind of
+    command the library can be asked to send: the three framings (an AA55 inverter may sit behind the TCP port, a Modbus
+    RTU frame may be sent over it) and raw caller-supplied frames (Inverter.send_command).  Only the transaction id of a
+    Modbus/TCP command may differ, and every frame parses under its own framing."""
+    n = 0
+    for tr in ('udp', 'tcp'):
+        for ka in (False, True):
+            world.reset()
+            peer = PlanPeer(lambda k, req, now: [])
+            loop = KLoop(peer)
+            p = make_protocol(tr, 1, 0, ka)
+            cmds = [('modbus-read', p.read_command(0x891C, 3)), ('modbus-write', p.write_command(47510, -2)),
+                    ('modbus-multi', p.write_multi_command(47515, bytes(range(8)))),
+                    ('rtu-read', gp.ModbusRtuReadCommand(0xF7, 0x891C, 3)), ('tcp-read', gp.ModbusTcpReadCommand(0xF7, 0x891C, 3)),
+                    ('aa55', gp.Aa55ProtocolCommand('010600', '0186')), ('aa55-read', gp.Aa55ReadCommand(0x0700, 4)),
+                    ('aa55-write', gp.Aa55WriteCommand(0x0560, 30)),
+                    ('raw', gp.ProtocolCommand(bytes.fromhex('aa55c07f0102000241'), lambda x: True)),
+                    ('raw-odd', gp.ProtocolCommand(bytes.fromhex('0102030405'), lambda x: True))]
+            for name, cmd in cmds:
+                n0 = len(peer.sent)
+                loop.run(_exec(cmd, p))
+                n += 1
+                sent = [d for _, _, d, _ in peer.sent[n0:]]
+                want = cmd.request
+                istcp = type(cmd).__name__.startswith('ModbusTcp')
+                bad = None
+                if len(sent) != 1:
+                    bad = f'{len(sent)} transmissions for one silent request with retries=0'
+                elif (sent[0][2:] != want[2:]) if istcp else (sent[0] != want):
+                    bad = f'on the wire {sent[0].hex()}, the command says {want.hex()}'
+                elif not name.startswith('raw'):
+                    try:
+                        (wire.parse_tcp_request if istcp else wire.parse_aa55_request if name.startswith('aa55')
+                         else wire.parse_rtu_request)(sent[0])
+                    except wire.BadRequest as e:
+                        bad = f'{sent[0].hex()}: {e}'
+                if bad:
+                    rep.add(f'wire-carries-the-command/{tr}/{name}', 'the transmitted bytes are the request of the command',
+                            dict(part='wire'), dict(cause=bad, transport=tr, keep_alive=ka, command=name))
+    return n
+
+
 def run(tier, seed, rep):
-    novl = factory_stage(rep)
+    novl = factory_stage(rep) + wire_stage(rep)
     for nc in (2, 3):
         for steps in (0, 1, 3):
             vio, k = run_overlap(nc, steps)
@@ -353,6 +396,11 @@ def replay(r):
         vio = {}
         one(vio, r['ctor'], tuple(a))
         return dict(violations=[(k, v[0]['detail']) for k, v in vio.items()])
+    if r['part'] == 'wire':
+        from ..findings import Report
+        rp = Report('C03')
+        wire_stage(rp)
+        return dict(violations=sorted(rp.by_key))
     if r['part'] == 'factory':
         from ..findings import Report
         rp = Report('C03')
